@@ -21,6 +21,9 @@ partial def parseMans : List String → Option (List Man)
   | _ => none
 
 /-- `cw <tnw 0|1> <n> <t> <x0..x5> <mans…>` → six floats: `propagate` from epoch 0 to time t
+    `cw0 <tnw> <n> <t> <t0> <x0..x5> <mans…>` → `propagate` of an orbit dated `t0` (a propagated orbit that still carries the list)
+    `cwref <n> <t> <t0> <x0..x5> <mans…>` → `hillSol`, the reference solution (QSW)
+    `cwfix <n> <t> <t0> <x0..x5> <mans…>` → `cwPropagateFixed` (the sequencing of the proposed fix, QSW)
     `cwstep <tnw> <n> <t> <x0..x5> <a0..a2>` → `_propagate` with acceleration
     `cwmat <n> <t>` → the 36 + 18 matrix entries -/
 def handle : List String → Option String
@@ -29,6 +32,27 @@ def handle : List String → Option String
     | some ([n, t, x0, x1, x2, x3, x4, x5], rest) =>
       match parseMans rest with
       | some mans => fsToStr (cwPropagate (tnw == "1") n mans t 0.0 [x0, x1, x2, x3, x4, x5])
+      | none => "bad-op"
+    | _ => "bad-op"
+  | "cw0" :: tnw :: rest => some <| Id.run do
+    match takeFloats 9 rest with
+    | some ([n, t, t0, x0, x1, x2, x3, x4, x5], rest) =>
+      match parseMans rest with
+      | some mans => fsToStr (cwPropagate (tnw == "1") n mans t t0 [x0, x1, x2, x3, x4, x5])
+      | none => "bad-op"
+    | _ => "bad-op"
+  | "cwref" :: rest => some <| Id.run do
+    match takeFloats 9 rest with
+    | some ([n, t, t0, x0, x1, x2, x3, x4, x5], rest) =>
+      match parseMans rest with
+      | some mans => fsToStr (hillSol n mans t t0 [x0, x1, x2, x3, x4, x5])
+      | none => "bad-op"
+    | _ => "bad-op"
+  | "cwfix" :: rest => some <| Id.run do
+    match takeFloats 9 rest with
+    | some ([n, t, t0, x0, x1, x2, x3, x4, x5], rest) =>
+      match parseMans rest with
+      | some mans => fsToStr (cwPropagateFixed n mans t t0 [x0, x1, x2, x3, x4, x5])
       | none => "bad-op"
     | _ => "bad-op"
   | "cwstep" :: tnw :: rest => some <|
